@@ -71,7 +71,7 @@ RET = {
     "np.round": "same", "np.around": "same", "np.abs": "same", "abs": "same", "np.sum": "real", "np.conj": "same", "np.conjugate": "same", "np.transpose": "same",
     "scipy.linalg.sqrtm": "arr", "scipy.linalg.inv": "arr", "scipy.linalg.det": "real", "np.linalg.det": "real", "np.linalg.matrix_power": "arr", "np.kron": "arr",
     "np.linalg.inv": "arr", "np.exp": "same", "np.max": "real", "np.min": "real", "np.linalg.matrix_rank": "real", "np.outer": "arr", "np.dot": "arr", "np.matmul": "arr",
-    "np.eye": "arr", "np.identity": "arr", "np.diag": "arr", "np.cos": "same", "np.sin": "same", "np.array": "same", "np.asarray": "same",
+    "scipy.linalg.fractional_matrix_power": "arr", "np.zeros_like": "arr", "np.eye": "arr", "np.identity": "arr", "np.diag": "arr", "np.cos": "same", "np.sin": "same", "np.array": "same", "np.asarray": "same",
 }
 PRED = {"is_density", "is_positive_semidefinite", "is_hermitian", "is_square", "is_unitary", "is_pure", "np.all", "np.any", "isinstance", "is_positive_definite"}
 CLOSE_DEFAULTS = {"rtol": 1e-05, "atol": 1e-08}
@@ -138,13 +138,50 @@ class TermEngine(Engine):
         raise Unsupported("comparison of non-scalars")
 
     def ev(self, e, env, pc):
-        if isinstance(e, ast.ListComp) and len(e.generators) == 1 and not e.generators[0].ifs and isinstance(e.generators[0].target, ast.Name):
-            # an elementwise conversion of an array-valued term, e.g. [int(x.item()) for x in dim]: a term named by the element expression
+        if isinstance(e, (ast.ListComp, ast.GeneratorExp)) and len(e.generators) == 1 and not e.generators[0].ifs and isinstance(e.generators[0].target, ast.Name):
             g = e.generators[0]
             src = self.ev(g.iter, env, pc)
+            if isinstance(src, (list, tuple, range)):
+                # a comprehension over a concrete-length Python list (of terms) or range: expanded element by element
+                out = []
+                for x in src:
+                    env2 = dict(env)
+                    env2[g.target.id] = x
+                    out.append(self.ev(e.elt, env2, pc))
+                return out
+            # an elementwise conversion of an array-valued term, e.g. [int(x.item()) for x in dim]: a term named by the element expression
             if is_arr(src) and {n.id for n in ast.walk(e.elt) if isinstance(n, ast.Name)} <= {g.target.id, "int", "float", "complex", "abs"}:
                 return uf("map[%s for %s]" % (ast.unparse(e.elt), g.target.id), Arr, src)
             raise Unsupported("list comprehension")
+        if isinstance(e, ast.Call) and isinstance(e.func, ast.Name) and e.func.id in ("len", "sum", "range") and e.args:
+            a0 = self.ev(e.args[0], env, pc)
+            if e.func.id == "len" and isinstance(a0, (list, tuple)):
+                return len(a0)
+            if e.func.id == "range" and all(isinstance(self.ev(a, env, pc), int) for a in e.args):
+                return range(*[self.ev(a, env, pc) for a in e.args])
+            if e.func.id == "sum" and isinstance(a0, (list, tuple)) and a0:
+                acc = a0[0]
+                for x in a0[1:]:
+                    acc = self.binop(ast.Add(), acc, x)
+                return acc
+        if isinstance(e, ast.Subscript):
+            base = self.ev(e.value, env, pc)
+            if isinstance(base, tuple) and len(base) == 2 and base[0] == "shape" and not isinstance(e.slice, (ast.Slice, ast.Tuple)):
+                i = self.ev(e.slice, env, pc)
+                if isinstance(i, int):
+                    return uf("shape[%d]" % i, z3.RealSort(), base[1])
+            if isinstance(base, (list, tuple)) and not (base and isinstance(base[0], str)) and not isinstance(e.slice, (ast.Slice, ast.Tuple)):
+                i = self.ev(e.slice, env, pc)
+                if isinstance(i, int):
+                    return base[i]
+        if isinstance(e, ast.IfExp):
+            c = self.cond(e.test, env, pc)
+            if isinstance(c, bool):
+                return self.ev(e.body if c else e.orelse, env, pc)
+            a, b = self.ev(e.body, env, pc), self.ev(e.orelse, env, pc)
+            if is_z3(lift(a)) and is_z3(lift(b)) and lift(a).sort() == lift(b).sort():
+                return z3.If(c, lift(a), lift(b))
+            raise Unsupported("conditional expression with a symbolic test and non-term branches")
         if isinstance(e, ast.Constant) and isinstance(e.value, complex):
             return uf("complex-constant[%r]" % (e.value,), z3.RealSort())
         if isinstance(e, ast.Call) and isinstance(e.func, ast.Name) and e.func.id == "len" and len(e.args) == 1:
@@ -182,6 +219,8 @@ class TermEngine(Engine):
             base = self.ev(e.value, env, pc)
             if isinstance(base, tuple) and base and base[0] == "modattr":
                 return ("modattr", base[1] + "." + base[2], e.attr)
+            if e.attr == "real" and ((is_z3(base) and base.sort() == z3.RealSort()) or isinstance(base, (int, float))):
+                return base  # scalars are modelled as reals
             if is_arr(base) and e.attr in getattr(self.c, "methods", {}):
                 return ("objmethod", base, e.attr)  # a method of an opaque object (declared by the contract with its result sort)
             if is_arr(base):
